@@ -299,6 +299,10 @@ class UnscentedKalmanFilter(KalmanFilter):
         # STEP 0: Re-sample the sigma points around predicted (sampled) state estimate
         if self._resample:
             self.sigma_points = self.generateSigmaPoints(self.pred_x, self.pred_p)
+            # [NOTE]: the state residuals must come from the same (re-drawn) sigma points as the
+            #   measurement residuals, otherwise the cross covariance mixes two different sets.
+            #   The first re-drawn sigma point is the predicted state estimate itself.
+            self.sigma_x_res = self.sigma_points - self.sigma_points[:, :1]
 
         # STEP 1: Calculate the Measurement Matrix (H)
         self.calculateMeasurementMatrix(observations)
